@@ -635,7 +635,19 @@ func (k *c09Checker) printWant(p *c09Print, a cp.Arg) (cp.Want, error) {
 		return cp.Want{DontCare: "print-of-negative-zero"}, nil
 	case x == math.Trunc(x):
 		if math.Abs(x) >= 9223372036854775808.0 {
-			return cp.Want{DontCare: "print-of-integral-beyond-int64"}, nil
+			// integral but beyond int64: the exact integer or the OFMT rendering are both
+			// accepted (the text says "as integers"; goawk uses OFMT there) - nothing else is
+			of := cp.Spec{Prec: ".6", Conv: "g"}
+			if p.OFMT != nil {
+				of = *p.OFMT
+			}
+			w, err := k.m.Conv(of, nil, a, false)
+			if err != nil || w.DontCare != "" {
+				return cp.Want{DontCare: "print-of-integral-beyond-int64"}, nil
+			}
+			w.Alts = append(w.Alts, []byte(strconv.FormatFloat(x, 'f', 0, 64)))
+			k.c.Count("print_integral_beyond_int64_judged", 1)
+			return w, nil
 		}
 		return k.m.Conv(cp.Spec{Conv: "d"}, nil, a, false)
 	}
